@@ -102,6 +102,12 @@ func (p *Processor) handleCleanup(ctx context.Context) {
 			} else {
 				gs = p.gs
 			}
+			if gs == nil {
+				// No guardian set has been learned yet (e.g. a VAA was injected before the first
+				// set update): there is nothing to account the signatures against.
+				p.logger.Warn("VAA settled before the guardian set was initialized", zap.String("digest", hash))
+				continue
+			}
 
 			hasSigs := len(s.signatures)
 			wantSigs := CalculateQuorum(len(gs.Keys))
